@@ -66,6 +66,32 @@ def cases(draw):
             flat = R.repair_refs(flat, R.index(child))
             values = draw(values_for(R.to_schema(child), 5, 8))
             return {"mode": "inherit", "a": child, "b": flat, "dropped": drop, "values": values}
+    if draw(st.integers(0, 6)) == 0:
+        # a tree that uses ONE class twice vs the same tree whose second use is an equal class under another name:
+        # the trees are equal, so they must mean - and serialise to - the same thing
+        gen = R._Gen()
+        cls = draw(R._node(R.RCfg(depth=1, inheritance=False, sharing=False), 1, gen, kinds=["Object"]))
+        other = R.twin(cls, gen) if cls.get("kind") == "Object" else None
+        if other is not None:
+            def holder(second):
+                where = draw(st.sampled_from(["props", "props", "anyOf", "array+prop"]))
+                return where, second
+            where = draw(st.sampled_from(["props", "anyOf", "items+prop"]))
+            def tree(second):
+                if where == "props":
+                    return {"id": 9000, "kind": "Element", "kw": {}, "props": [
+                        {"name": "p", "source": None, "required": False, "element": copy.deepcopy(cls)},
+                        {"name": "q", "source": None, "required": False, "element": second}]}
+                if where == "anyOf":
+                    return {"id": 9000, "kind": "AnyOf", "kw": {}, "elements": [
+                        {"id": 9001, "kind": "Array", "kw": {}, "sub": {"items": copy.deepcopy(cls)}}, second]}
+                return {"id": 9000, "kind": "Element", "kw": {}, "sub": {"items": copy.deepcopy(cls)}, "props": [
+                    {"name": "q", "source": None, "required": False, "element": second}]}
+            a = tree({"ref": cls["id"]})
+            b = tree(copy.deepcopy(other))
+            values = draw(values_for(R.to_schema(a), 4, 6))
+            return {"mode": "mutant", "mutation": "second-use-is-an-equal-twin:" + where, "a": a, "b": b, "values": values,
+                    "must_be_equal": True}
     if recipe.get("props") and recipe["kind"] in ("Element", "Object") and draw(st.integers(0, 2)) == 0:
         # b re-uses a's element OBJECTS under property wrappers that differ in one attribute
         values = draw(values_for(R.to_schema(recipe), 4, 6))
@@ -279,6 +305,9 @@ def predicate(case, stats):
         fails.append({"sub": "eq", "kind": "subclass-unequal-to-its-flat-equivalent"})
     if case["mode"] == "same" and not (ab and ba):
         fails.append({"sub": "eq", "kind": "independent-builds-unequal"})
+    if case.get("must_be_equal") and not (ab and ba):
+        fails.append({"sub": "eq", "kind": "tree-unequal-to-itself-with-an-equal-class-substituted",
+                      "mutation": case.get("mutation")})
     equal = bool(ab) and bool(ba)
     if equal:
         for value in case["values"]:
